@@ -8,7 +8,8 @@ RULE = ("one TLC state per underdetermined lattice system; for every strictly in
         "each secondary objective over the solution polytope: min / max total intensity (vertex LP), total closest to "
         "a number (clamp), smallest norm / variance / distance to a vector (KKT active-set QP with equality "
         "multipliers); TLC checks feasibility and that no polytope vertex is better; replayed into "
-        "ReceptorEstimator.fit_underdetermined for every option and tolerance.  non-trivial = target whose solution "
+        "ReceptorEstimator.fit_underdetermined for every option (incl. the (option, indices) form restricted to the "
+        "first two sources) and tolerance, tightly with CLARABEL, and for a slow ramp of targets in one call.  non-trivial = target whose solution "
         "polytope has >= 2 vertices; distinct = (system, target, option, tolerance)")
 
 TOLX = 2e-2
@@ -35,7 +36,8 @@ def replay_state(args):
         b = dsys.b_float(s, r["b"])
         x0 = np.asarray(r["x0"], float) / D
         v = r["v"] / D
-        opts = [("l2", "l2"), ("min", "min"), ("max", "max"), ("var", "var"), ("number", float(v)), ("vector", x0.copy())]
+        opts = [("l2", "l2"), ("min", "min"), ("max", "max"), ("var", "var"), ("number", float(v)), ("vector", x0.copy()),
+                ("min-subset", ("min", [0, 1])), ("max-subset", ("max", [0, 1]))]
         if r["v"] != 6:   # the string / vector options do not depend on v: run them once per target
             opts = [("number", float(v))]
         for eps in epss:
@@ -74,6 +76,10 @@ def replay_state(args):
                     e = fr(r["maxsum"]) / D
                     if abs(x.sum() - e) > TOLX * n + slack:
                         bad.append(("C08.objective", w, e, float(x.sum()), r))
+                elif name in ("min-subset", "max-subset"):
+                    e = fr(r["minsub" if name == "min-subset" else "maxsub"]) / D
+                    if abs(x[:2].sum() - e) > TOLX * 2 + slack:
+                        bad.append(("C08.objective", w, e, float(x[:2].sum()), r))
                 elif name == "number":
                     e = fr(r["numsum"]) / D
                     if abs(x.sum() - e) > TOLX * n + slack:
